@@ -111,6 +111,10 @@ Lemma flat_map_flat_map {A B C} (f : B -> list C) (g : A -> list B) l :
   flat_map f (flat_map g l) = flat_map (fun a => flat_map f (g a)) l.
 Proof. induction l as [|a l IH]; simpl; auto. rewrite flat_map_app. now rewrite IH. Qed.
 
+Lemma result_witness {A} (r : result A) (P : A -> bool) :
+  match r with Ok a => P a | Err _ => false end = true -> exists a, r = Ok a /\ P a = true.
+Proof. destruct r; [eauto|discriminate]. Qed.
+
 Lemma last_find_some {A} (p : A -> bool) l x : last_find p l = Some x -> In x l /\ p x = true.
 Proof. unfold last_find. intros H. apply find_some in H. destruct H as [H1 H2]. split; auto. now apply in_rev. Qed.
 
@@ -676,6 +680,8 @@ Definition zero_bin_spec : spec QcNum :=
    shapefactor paramset of size 0 whose default inits () are falsy, so the length check of user-configured inits is skipped *)
 Theorem npars_total_refuted : exists md, build QcNum zero_bin_spec = Ok md /\ md_npars QcNum md <> total QcNum (md_psets QcNum md).
 Proof.
-  destruct (build QcNum zero_bin_spec) as [md|e] eqn:E; [|vm_compute in E; discriminate].
-  exists md. split; auto. vm_compute in E. inversion E; subst. vm_compute. discriminate.
+  destruct (result_witness (build QcNum zero_bin_spec) (fun md => negb (Nat.eqb (md_npars QcNum md) (total QcNum (md_psets QcNum md)))))
+    as (md & Hb & HP).
+  - vm_compute. reflexivity.
+  - exists md. split; auto. apply negb_true_iff in HP. now apply Nat.eqb_neq.
 Qed.
